@@ -28,7 +28,7 @@ def texts(tier, s):
     out += [("pair", t) for t in gen_tokens.operator_pairs()]
     out += [("order", t) for t in gen_tokens.param_and_arg_orders()]
     out += [("form", t) for t in gen_tokens.STATEMENT_FORMS]
-    n = 4000 if tier == "quick" else 120000
+    n = 4000 if tier == "quick" else common.tscale(120000)
     for i in range(n):
         r = random.Random("%d/c06/%d" % (s, i))
         k = i % 4
@@ -51,7 +51,7 @@ def run(tier):
     ts = texts(tier, s)
     # round-trip corpus: full dialect programs from the other generators
     rt = []
-    nrt = 300 if tier == "quick" else 8000
+    nrt = 300 if tier == "quick" else common.tscale(8000)
     for i in range(nrt):
         r = random.Random("%d/c06rt/%d" % (s, i))
         rt.append(gen_full.render(gen_full.gen_program(r, heap_heavy=(i % 2 == 0), max_stmts=r.choice([10, 30]), inject_fail=0.2)))
